@@ -212,7 +212,8 @@ impl OutputFormat for IcyDraw {
                     let real_length = get_invisible_line_length(layer, y);
                     for x in 0..real_length {
                         let ch = layer.get_char((x, y));
-                        let mut attr = ch.attribute.attr;
+                        // a cell that is not visible is written without data, as the plain INVISIBLE word the reader expects
+                        let mut attr = if ch.is_visible() { ch.attribute.attr } else { attribute::INVISIBLE };
 
                         let is_short = if ch.is_visible()
                             && ch.ch as u32 <= 255
@@ -265,7 +266,8 @@ impl OutputFormat for IcyDraw {
 
                         for x in 0..real_length {
                             let ch = layer.get_char((x, y));
-                            let mut attr = ch.attribute.attr;
+                            // a cell that is not visible is written without data, as the plain INVISIBLE word the reader expects
+                            let mut attr = if ch.is_visible() { ch.attribute.attr } else { attribute::INVISIBLE };
 
                             let is_short = if ch.is_visible()
                                 && ch.ch as u32 <= 255
@@ -456,8 +458,8 @@ impl OutputFormat for IcyDraw {
                                                             attr &= !attribute::SHORT_DATA;
                                                             true
                                                         };
-                                                        if attr == crate::attribute::INVISIBLE {
-                                                            // default char
+                                                        if attr & crate::attribute::INVISIBLE != 0 {
+                                                            // default char (written without data, whatever other flags it has)
                                                             continue;
                                                         }
 
@@ -628,8 +630,8 @@ impl OutputFormat for IcyDraw {
                                                     true
                                                 };
 
-                                                if attr == crate::attribute::INVISIBLE {
-                                                    // default char
+                                                if attr & crate::attribute::INVISIBLE != 0 {
+                                                    // default char (written without data, whatever other flags it has)
                                                     continue;
                                                 }
 
